@@ -85,7 +85,7 @@ PROPS = {
                 fuzz=dict(workers=4, quick=0, thorough=300, max_len=256),
                 assumptions=["bit-serial reference implements the standard CRC-32C definition (check value 0xE3069283 asserted)",
                              "crc32c_arm_neon.c cannot be compiled on this x86 sandbox: not covered"]),
-    "C20": dict(sources=["props/C20.cpp"], jls=True, tiers=T(40000, 600000),
+    "C20": dict(sources=["props/C20.cpp"], jls=True, tiers=T(40000, 450000),
                 assumptions=["long double (x87 80-bit) two-pass reference is exact enough for n <= 10^4",
                              "error bounds: mean 2(n+4)eps*A; S 8n*eps*(S+A*sqrt(nS))+4n^3eps^2A^2 (Welford/pairwise bound)"]),
 }
